@@ -11,6 +11,8 @@ func init() {
 	verifRegister("verifC20Controlled", verifC20Controlled)
 	verifRegister("verifC20Controlling", verifC20Controlling)
 	verifRegister("verifC20Deferred", verifC20Deferred)
+	verifRegister("verifC20DeferredSuperseded", verifC20DeferredSuperseded)
+	verifRegister("verifC20ControllingReorder", verifC20ControllingReorder)
 	verifRegister("verifC20Renominate", verifC20Renominate)
 	verifRegister("verifC20Codec", verifC20Codec)
 }
@@ -105,7 +107,16 @@ func verifC20Inbound(cfg verifStepCfg) {
 			verifReach("controlling-nomination-response")
 			if p.nom != nil {
 				verifReach("valued")
-				verifAssert(s.after.selected == pair, "response-to-a-valued-nomination-always-switches")
+				// latest nomination wins on the controlling side too: the response
+				// switches iff its value exceeds every value confirmed before
+				newer := s.confirmedBefore == nil || *p.nom > *s.confirmedBefore
+				if newer { // forks
+					verifReach("valued-newer")
+					verifAssert(s.after.selected == pair, "response-to-the-newest-renomination-switches-whatever-the-priorities")
+				} else {
+					verifReach("valued-late")
+					verifAssert(s.after.selected == s.before.selected, "late-response-to-an-older-renomination-does-not-move-the-selection-back")
+				}
 			} else {
 				verifAssert(s.after.selected == pair || (s.before.selected != nil && s.after.selected == s.before.selected), "response-to-a-plain-nomination-selects-only-when-nothing-was-selected")
 				if s.before.selected != nil {
@@ -218,5 +229,122 @@ func verifC20Codec() {
 	verifAssert(n.GetFromWithType(m, DefaultNominationAttribute) == nil, "decode")
 	verifAssert(verifImplies(v < 1<<24, n.Value == v), "values-below-2^24-round-trip")
 	verifAssert(n.Value == v&0xFFFFFF, "decoded=low-24-bits")
+	verifReach("done")
+}
+
+// (3') the latest nomination wins also when an EARLIER one is still waiting
+// for its pair to become valid: value v1 arrives on a not-yet-valid pair B
+// (deferred), then value v2 arrives on the valid pair A, then B's own check
+// succeeds. Whatever the priorities: the final selection is the pair of the
+// greater value — A if v2 > v1 (the stale deferred nomination must not take
+// the selection back), B if v2 <= v1 (v2 was rejected on arrival).
+func verifC20DeferredSuperseded() {
+	w := verifNewWorld(false, false, 2, 1)
+	a := w.a
+	a.enableRenomination = true
+	w.pairAll()
+	for _, l := range w.locals {
+		l.priorityOverride = 1 + uint32(verifU8())
+	}
+	pa, pb := a.checklist[0], a.checklist[1]
+	pa.state = CandidatePairStateSucceeded // A is valid, B is still being checked
+	pb.state = CandidatePairState(verifInt(1, 2))
+	src := w.remotes[0].addrPort()
+	nominate := func(li int, v uint32) {
+		req, err := stun.Build(stun.BindingRequest, stun.NewTransactionIDSetter(verifTxID()), stun.NewUsername(verifExpectedUsername), UseCandidate(),
+			NominationSetter{Value: v, AttrType: DefaultNominationAttribute}, AttrControlling(1), PriorityAttr(5),
+			stun.NewShortTermIntegrity(verifLocalPwd), stun.Fingerprint)
+		verifAssert(err == nil, "build")
+		a.handleInbound(req, w.locals[li], src)
+	}
+	v1, v2 := verifU32()&0xFFFFFF, verifU32()&0xFFFFFF
+	// step 1: v1 on B (not valid yet): accepted, deferred
+	nominate(1, v1)
+	verifAssert(pb.nominateOnBindingSuccess && a.getSelectedPair() == nil, "first-nomination-deferred-until-its-pair-is-valid")
+	var check *stun.Message
+	for i := range w.conns[1].sent {
+		if m := verifParseSent(w.conns[1], i); m != nil && m.Type.Class == stun.ClassRequest {
+			check = m
+		}
+	}
+	verifAssert(check != nil, "triggered-check-sent")
+	if check == nil {
+		return
+	}
+	// step 2: v2 on the valid pair A
+	nominate(0, v2)
+	newer := v2 > v1
+	if newer {
+		verifReach("superseded")
+		verifAssert(a.getSelectedPair() == pa, "greater-value-on-a-valid-pair-selects-it-at-once")
+	} else {
+		verifReach("stale-second")
+		verifAssert(a.getSelectedPair() == nil, "smaller-or-equal-value-changes-nothing")
+	}
+	// step 3: B's own check succeeds
+	resp, err := stun.Build(stun.BindingSuccess, stun.NewTransactionIDSetter(check.TransactionID), stun.NewShortTermIntegrity(verifRemotePwd), stun.Fingerprint)
+	verifAssert(err == nil, "build")
+	a.handleInbound(resp, w.locals[1], src)
+	verifAssert(pb.state == CandidatePairStateSucceeded, "second-pair-valid")
+	if newer {
+		verifAssertKnown(a.getSelectedPair() == pa, "a-superseded-deferred-nomination-does-not-take-the-selection-back", "C20-stale-deferred-nomination-fires", true)
+	} else {
+		verifAssert(a.getSelectedPair() == pb, "the-highest-accepted-value's-pair-is-selected-once-valid")
+	}
+	verifReach("done")
+}
+
+// (2') the controlling side and reordered responses: it renominates pair A
+// (value v) and then pair B (a greater value); the two success responses may
+// arrive in either order, the older one possibly after the newer. When the
+// exchange has quiesced it must sit on B — the pair carrying the highest
+// value it issued, which is where the controlled side ends.
+func verifC20ControllingReorder() {
+	w := verifNewWorld(true, false, 2, 1)
+	a := w.a
+	a.enableRenomination = true
+	w.pairAll()
+	for _, l := range w.locals {
+		l.priorityOverride = 1 + uint32(verifU8())
+	}
+	pa, pb := a.checklist[0], a.checklist[1]
+	pa.state, pb.state = CandidatePairStateSucceeded, CandidatePairStateSucceeded
+	v := verifU32() & 0xFFFFFF
+	verifAssume(verifAnd(v >= 1, v < 0xFFFFFF))
+	next := v
+	a.nominationValueGenerator = func() uint32 { r := next; next++; return r }
+	verifAssert(a.RenominateCandidate(pa.Local, pa.Remote) == nil, "renominate-A")
+	verifAssert(a.RenominateCandidate(pb.Local, pb.Remote) == nil, "renominate-B")
+	reqOf := func(ci int) *stun.Message {
+		var m *stun.Message
+		for i := range w.conns[ci].sent {
+			if x := verifParseSent(w.conns[ci], i); x != nil && x.Type.Class == stun.ClassRequest {
+				m = x
+			}
+		}
+		return m
+	}
+	ra, rb := reqOf(0), reqOf(1)
+	verifAssert(ra != nil && rb != nil, "both-nominations-sent")
+	if ra == nil || rb == nil {
+		return
+	}
+	src := w.remotes[0].addrPort()
+	answer := func(req *stun.Message, li int) {
+		resp, err := stun.Build(stun.BindingSuccess, stun.NewTransactionIDSetter(req.TransactionID), stun.NewShortTermIntegrity(verifRemotePwd), stun.Fingerprint)
+		verifAssert(err == nil, "build")
+		a.handleInbound(resp, w.locals[li], src)
+	}
+	if verifChoice(2) == 0 {
+		verifReach("in-order")
+		answer(ra, 0)
+		answer(rb, 1)
+	} else {
+		verifReach("reordered")
+		answer(rb, 1)
+		verifAssert(a.getSelectedPair() == pb, "response-to-the-latest-renomination-selects-its-pair")
+		answer(ra, 0) // the older nomination's response arrives late
+	}
+	verifAssertKnown(a.getSelectedPair() == pb, "controlling-side-ends-on-the-pair-of-the-highest-value-it-issued", "C20-controlling-late-response-switches-back", true)
 	verifReach("done")
 }
